@@ -379,7 +379,7 @@ def find_type_changes(
             schema_changes.extend(
                 find_implemented_interfaces_changes(old_type, new_type)
             )
-        elif old_type.__class__ is not new_type.__class__:
+        elif type_kind_name(old_type) != type_kind_name(new_type):
             schema_changes.append(
                 BreakingChange(
                     BreakingChangeType.TYPE_CHANGED_KIND,
